@@ -339,7 +339,7 @@ class ProxyPolicy(Policy):
 
 
 STR_KEYS = ["title", "Title", "TITLE", "artist", "a", "", "k=v", "a~", "a\x7f", "été", "x" * 255, "x" * 256,
-            "OggS", "ID3", "\U0001f3b5", " sp ace "]
+            "OggS", "ID3", "\U0001f3b5", " sp ace ", "title\n", "\ntitle", "a\x00b"]
 WILD_KEYS = [["i", 3], ["i", 0], ["n"], ["b", "6162"], ["t", [["s", "a"], ["i", 1]]], ["l", [["s", "a"]]]]
 ATOMS = [S("x"), S(""), S("é"), S("a\x00b"), ["b", "00ff"], ["b", ""], ["i", 3], ["i", -1], ["n"]]
 LISTS = [L(), L(S("x")), L(S("x"), S("y")), L(S("x"), S("x")), L(S("x"), ["i", 3]), L(["b", "41"]), L(["n"])]
@@ -384,7 +384,7 @@ class ApePolicy(Policy):
 
 
 APE_KEYS = ["Title", "TITLE", "title", "Artist", "artist", "ab", "AB", "T", "", "OggS", "oggs", "ID3", "id3", "TAG", "MP+",
-            "a~", "a\x7f", "k=v", "éé", "x" * 255, "X" * 255, "x" * 256, "a\x1fb", "  "]
+            "a~", "a\x7f", "k=v", "éé", "x" * 255, "X" * 255, "x" * 256, "a\x1fb", "  ", "Title\n", "\nTitle", "ab\x00", "ab\r"]
 
 
 class ApeKind(Kind):
@@ -419,7 +419,7 @@ class VcPolicy(Policy):
 
 
 VC_KEYS = ["title", "TITLE", "Title", "artist", "a", "", "k=v", "=", "a~", "a}", "a\x7f", "é", "x" * 300, " sp ace ",
-           "a\x1f", "ID3"]
+           "a\x1f", "ID3", "title\n", "\ntitle", "ti\ntle", "a\r", "a\t", "a\x00", "title\r\n", "\x7ftitle"]
 
 
 class VcKind(Kind):
